@@ -276,6 +276,10 @@ package protocol
 //@   requires s != nil && s.sendQueue != nil && s.recvBuf != nil && s.recvQueue != nil && ghost(sq) == s.sendQueue && ghost(rq) != s.sendQueue
 //@   requires 1280 <= s.mtu && s.mtu <= 1500
 //@   assert_call segmentTree.Insert: [C13 C01] len(arg0.payload) == 0 || baseof(arg0.payload) != baseof(b)
+//@   // every fragment queued for UDP fits the MTU together with the fixed 88 bytes of header and
+//@   // tags, and its length field is exact: the premise under which writeOneSegment is proved to
+//@   // emit datagrams within the MTU (C14)
+//@   assert_call segmentTree.Insert: [C14] s.transportProtocol == common.PacketTransport && !sendLowEntropy ==> len(arg0.payload) + 88 <= s.mtu && typeof(arg0.metadata) == typeid(*dataAckStruct) && int(payload(arg0.metadata, *dataAckStruct).payloadLen) == len(arg0.payload)
 //@   ensures err == nil ==> n == len(b) && len(b) <= 32768
 //@   ensures [C03] err == nil ==> ghost(sqrem) >= 1
 //@   ensures [C13 C01] err == nil && len(b) > 0 ==> s.nextSend.v != old(s.nextSend.v) || len(b) == 0
